@@ -607,6 +607,8 @@ class Interp:
             return
         seq = self._concrete_seq(it)
         if seq is not None and (len(seq) <= 16 or (isinstance(it, str) and self.run.loop_depth == 0)):
+            if isinstance(it, (set, frozenset)) and len(it) > 1 and any(isinstance(x, str) for x in it):
+                self.log("unordered-walk", st, size=len(it))          # a set of strings is walked in hash order: the order used here (sorted) is not the program's
             try:
                 for v in seq:
                     self.assign(st.target, v, st)
